@@ -132,6 +132,23 @@ func mRun(r *engine.Run, mode string) int {
 			})
 		}
 	}
+	if mode == "c02" {
+		// the same histories (up to 2 writers) on a table with a non-key column BEFORE the key and one after it:
+		// which columns a statement writes must not depend on where the key is declared
+		km := 0
+		for base := 0; base <= 1; base++ {
+			for n := 1; n <= 3; n++ {
+				stmtHistories(n, 2, 1, base, 4096, allKinds, func(h hist) {
+					if plausible(h) {
+						h.KeyMid = true
+						cases = append(cases, engine.J(mCase{Mode: mode, H: h, MaxRM: t.maxrm, Sub: t.sub}))
+						km++
+					}
+				})
+			}
+		}
+		r.Bounds["key_in_the_middle_histories"] = km
+	}
 	if r.Thorough() {
 		// transaction grouping: consecutive statements of one writer wrapped in BEGIN..COMMIT
 		for base := 0; base <= 1; base++ {
@@ -306,7 +323,7 @@ func mWorker(raw json.RawMessage) *engine.Result {
 
 // mProbe executes the history up to and including event pos and reports why it was pruned ("" if not).
 func mProbe(c mCase, h hist, pos int) string {
-	r := hStart(hist{Base: h.Base, EPN: h.EPN, Writers: h.Writers, Ev: h.Ev[:pos+1]})
+	r := hStart(hist{Base: h.Base, EPN: h.EPN, Writers: h.Writers, KeyMid: h.KeyMid, Ev: h.Ev[:pos+1]})
 	defer r.close()
 	scratch := &engine.Result{}
 	for i, e := range r.h.Ev {
